@@ -122,6 +122,9 @@ func ruleFilterNames(c *core.Ctx) {
 			}
 			return true
 		})
+		for k := range mapLiteralKeysUsed(c, mf) {
+			cases[k] = true // a table of constructors instead of a switch
+		}
 		o.Fact("MakeFilter cases %s", joinSet(cases))
 		for _, t := range filterImplementers(c) {
 			fn := methodFunc(c, t, "Info")
@@ -810,6 +813,23 @@ func ruleRunLengthBounds(c *core.Ctx, rule string) {
 						}
 						writes++
 						o.Count(1)
+						if s.Tok == token.ADD_ASSIGN && len(s.Rhs) == 1 {
+							if k, isK := core.IntConst(info, s.Rhs[0]); isK && k >= 0 {
+								// field += k: like k increments
+								bound := core.Formula{Fn: fn, Atoms: []core.Atom{{Expr: &ast.BinaryExpr{X: l, Op: token.LEQ, Y: &ast.BasicLit{Kind: token.INT, Value: itoa(int(128 - k))}}}}}
+								holds, counter, decided := c.Prog.Implies(core.Formula{Fn: fn, Atoms: g.DominatingAtoms(v)}, bound)
+								if decided && !holds {
+									o.FailAt(fn.Site(s, ""), "%s: the run can grow beyond 128 bytes: the guards allow %s before %d is added", c.Prog.Pos(s.Pos()), counter, k)
+								} else if !decided {
+									o.Unrec("%s: guard of the update of %s not decided", c.Prog.Pos(s.Pos()), field.Name())
+								}
+								continue
+							}
+							// field += <computed>: the bound would need an argument about the
+							// loop that computed the amount
+							o.Unrec("%s: %s grows by the computed amount %s: whether it stays within 128 is not decided", c.Prog.Pos(s.Pos()), field.Name(), core.ExprStr(s.Rhs[0]))
+							continue
+						}
 						if s.Tok != token.ASSIGN || len(s.Rhs) != len(s.Lhs) {
 							o.FailAt(fn.Site(s, ""), "%s: update of %s not understood", c.Prog.Pos(s.Pos()), field.Name())
 							continue
